@@ -124,7 +124,7 @@ StepRun(e)  == /\ run' = [inp |-> e.input, cfg |-> CfgOf(e.cfg), tag |-> e.tag, 
                /\ r' = InitReader
                /\ m' = IF Mode = "LB"
                         THEN [ok |-> TRUE, why |-> "", s |-> InitBuf(CfgOf(e.cfg).cap0, e.sched),
-                              live |-> (\A i \in 1..Len(e.sched) : e.sched[i] >= -1) /\ ~("multi" \in DOMAIN e)]
+                              live |-> ~("multi" \in DOMAIN e)]
                         ELSE IF Mode = "L1"     \* ReaderCore sees the whole input: runs whose source pauses, returns Ok(0) early or fails are LB's / the monitors' business
                         THEN [ok |-> TRUE, why |-> "", live |-> (\A i \in 1..Len(e.sched) : e.sched[i] > 0)]
                         ELSE MonInit
@@ -139,7 +139,7 @@ StepRecoverL1(e) ==
   LET s == RecoverCall(c.sch, run.cfg, run.inp, r) IN
   IF (s.ok /\ e.res = "ok") \/ (~s.ok /\ e.res = "eof" /\ e.pos = s.e.pos) THEN r' = s.r /\ UNCHANGED <<c, run, m, skip>>
   ELSE Reject(l, <<"L1 recover", c.n, run.tag, "expected ok", s.ok>>) /\ skip' = TRUE /\ UNCHANGED <<c, run, r, m>>
-\* MODE = LB: the monitor variable carries the window state s of ReaderBuf (live: the schedule has no injected errors)
+\* MODE = LB: the monitor variable carries the window state s of ReaderBuf (live: until a try_recover; schedules with injected source errors are modelled)
 StepNextLB(e) ==
   IF ~m.live THEN UNCHANGED <<c, run, r, m, skip>>
   ELSE LET n == NextCallB(c.sch, run.cfg, run.inp, r, m.s) IN
